@@ -468,6 +468,40 @@ func scalarFields(t types.Type, prefix string) (paths []string, widths []int, ok
 	return paths, widths, true
 }
 
+// addrField: an octet-string field of a component with its specified length.
+type addrField struct {
+	path string
+	n    int
+}
+
+// addrFields: like scalarFields, but octet-string fields with a known name are allowed
+// (Address / Mask: 4 octets, MAC: 6 octets).
+func addrFields(t types.Type) (paths []string, widths []int, addrs []addrField, ok bool) {
+	st, isSt := t.Underlying().(*types.Struct)
+	if !isSt {
+		return nil, nil, nil, false
+	}
+	known := map[string]int{"Address": 4, "Mask": 4, "MAC": 6}
+	for i := 0; i < st.NumFields(); i++ {
+		f := st.Field(i)
+		if w, _, isInt := typeWidth(f.Type()); isInt {
+			paths = append(paths, "."+f.Name())
+			widths = append(widths, w)
+			continue
+		}
+		if sl, isSl := f.Type().Underlying().(*types.Slice); isSl {
+			if b, isB := sl.Elem().Underlying().(*types.Basic); isB && b.Kind() == types.Uint8 {
+				if n, okN := known[f.Name()]; okN {
+					addrs = append(addrs, addrField{"." + f.Name(), n})
+					continue
+				}
+			}
+		}
+		return nil, nil, nil, false
+	}
+	return paths, widths, addrs, true
+}
+
 // checkComponentRoundTrip (comp.roundtrip): for every implementation of the two component
 // interfaces whose fields are all integers, UnmarshalBinary(MarshalBinary(v)) == v for EVERY value
 // v that MarshalBinary accepts: both methods are interpreted by E2 on symbolic fields, the
@@ -491,9 +525,16 @@ func checkComponentRoundTrip(w *World, r *Report) {
 				continue
 			}
 			paths, widths, scalar := scalarFields(o.Type(), "")
+			var addrs []addrField
 			if !scalar {
-				r.Note("comp.roundtrip: %s has non-integer fields (addresses): not covered by this rule", n)
-				continue
+				// address components: octet-string fields of the well-formed length (IPv4 address and
+				// mask 4 octets each, MAC address 6: TS 24.501 9.11.4.13) beside integer fields
+				var okA bool
+				paths, widths, addrs, okA = addrFields(o.Type())
+				if !okA {
+					r.Note("comp.roundtrip: %s has fields that are neither integers nor known octet strings: not covered by this rule", n)
+					continue
+				}
 			}
 			fm := w.LookupFunc("nasType", n+".MarshalBinary")
 			fu := w.LookupFunc("nasType", n+".UnmarshalBinary")
@@ -516,6 +557,19 @@ func checkComponentRoundTrip(w *World, r *Report) {
 				v := it.SrcBV("a"+p, widths[i])
 				st.mem[a][p] = v
 				orig = append(orig, v)
+			}
+			var origA [][]BV
+			for _, af := range addrs {
+				ao := it.NewObj("a"+af.path, false)
+				st.mem[ao] = map[string]Value{}
+				var bs []BV
+				for k := 0; k < af.n; k++ {
+					v := it.SrcBV(fmt.Sprintf("a%s[%d]", af.path, k), 8)
+					st.mem[ao][fmt.Sprintf("[%d]", k)] = v
+					bs = append(bs, v)
+				}
+				st.mem[a][af.path] = SliceV{Obj: ao, Len: af.n}
+				origA = append(origA, bs)
 			}
 			res := it.Call(w.SSAFunc(fm), []Value{ra}, st, 0)
 			tv, ok := res.(TupleV)
@@ -561,6 +615,26 @@ func checkComponentRoundTrip(w *World, r *Report) {
 					good, why = false, "field "+strings.TrimPrefix(p, ".")+" does not come back with the value that was serialised, for some value the serialiser accepts"
 				}
 			}
+			for i, af := range addrs {
+				if !good {
+					break
+				}
+				sl, isSl := it.load(st, Ptr{Obj: b, Path: af.path}, types.NewSlice(u8T)).(SliceV)
+				if !isSl || sl.Nil || sl.Len != af.n {
+					good, why = false, fmt.Sprintf("field %s does not come back as the %d octets that were serialised", strings.TrimPrefix(af.path, "."), af.n)
+					break
+				}
+				for k := 0; k < af.n; k++ {
+					got, isBV := it.load(st, it.sliceElemPtr(sl, k), u8T).(BV)
+					if !isBV || got.W != 8 || !underPremiseZero(it, neqBV(it, got, origA[i][k])) {
+						good, why = false, fmt.Sprintf("octet %d of field %s does not come back with the value that was serialised", k, strings.TrimPrefix(af.path, "."))
+						break
+					}
+				}
+			}
+			if good && len(addrs) > 0 && !underPremiseZero(it, it.T.Not(n1)) {
+				good, why = false, "the serialiser rejects a component whose octet strings have the specified lengths"
+			}
 			if good {
 				r.OK("comp.roundtrip")
 			} else {
@@ -568,7 +642,7 @@ func checkComponentRoundTrip(w *World, r *Report) {
 			}
 		}
 	}
-	r.Expect("comp.roundtrip", 12)
+	r.Expect("comp.roundtrip", 16)
 }
 
 // checkQoSRuleRoundTrip (rule.roundtrip): QoSRules.MarshalBinary followed by UnmarshalBinary,
